@@ -493,3 +493,132 @@ Proof.
         - intro Hne. contradiction. }
     apply (Hsimple _ H). discriminate.
 Qed.
+
+Lemma cstep_facts st e st' outs hist x :
+  cstep st e = (st', outs) -> good hist st ->
+  negotiated st' = negotiated st /\ good (e :: hist) st' /\
+  D x (mgr st) (mgr st') (sent_cand x outs) (counted_from x st e) /\
+  (raddr st' <> raddr st ->
+   exists r, e = ERecord r /\ negotiated st = true /\ raddr st' = r_from r /\ validated hist r).
+Proof.
+  intros H Hg. destruct e as [r|a now|now]; cbn [cstep] in H.
+  - destruct (step_record_facts _ _ _ _ _ x H Hg) as [A [B [_ [C E]]]].
+    refine (conj A (conj B (conj C _))). intro Hne. exists r. split; [reflexivity|]. now apply E.
+  - inversion H; subst. destruct Hg as [Hi Hh]. cbn [with_mgr raddr negotiated mgr counted_from sent_cand].
+    refine (conj eq_refl (conj (conj _ _) (conj _ _))).
+    + now apply inv_timer_fire.
+    + apply hinv_mono. now apply hinv_timer_fire.
+    + now apply D_timer_fire.
+    + intro Hne. contradiction.
+  - inversion H; subst. destruct Hg as [Hi Hh]. cbn [with_mgr raddr negotiated mgr counted_from sent_cand].
+    refine (conj eq_refl (conj (conj _ _) (conj _ _))).
+    + now apply inv_fire_all.
+    + apply hinv_mono. now apply hinv_fire_all.
+    + now apply D_fire_all.
+    + intro Hne. contradiction.
+Qed.
+
+Lemma good_init hist st : mgr st = [] -> good hist st.
+Proof. intro H. unfold good. rewrite H. split; [apply inv_nil|apply hinv_nil]. Qed.
+
+Lemma crun_good evs : forall st hist,
+  good hist st -> good (rev evs ++ hist) (crun st evs) /\ negotiated (crun st evs) = negotiated st.
+Proof.
+  induction evs as [|e evs IH]; intros st hist Hg; cbn [crun rev app]; [split; [assumption|reflexivity]|].
+  destruct (cstep st e) as [st1 outs] eqn:E. cbn [fst].
+  destruct (cstep_facts _ _ _ _ _ 0 E Hg) as [Hn [Hg1 _]].
+  destruct (IH st1 (e :: hist) Hg1) as [Hg2 Hn2].
+  rewrite <- app_assoc. cbn [app]. split; [assumption|congruence].
+Qed.
+
+(* ================================================================ the theorems *)
+
+(* ADDRESS CHANGE: from a connection with no candidate paths, after ANY event sequence [evs]
+   (records, timer callbacks in any order), a step changes the remote address only if it is an
+   admitted path-response record from an address a, RRC was negotiated, the new address is a, and
+   an earlier admitted record from a - carrying a connection ID, newest in the replay window - made
+   Start issue the very cookie this response carries, less than TIMEOUT before. *)
+Theorem addr_changes_only_on_validated_response st0 evs e :
+  mgr st0 = [] ->
+  let st := crun st0 evs in
+  raddr (fst (cstep st e)) <> raddr st ->
+  exists r, e = ERecord r /\ negotiated st0 = true /\ raddr (fst (cstep st e)) = r_from r /\
+            validated evs r.
+Proof.
+  intros H0 st Hne.
+  destruct (crun_good evs st0 [] (good_init [] st0 H0)) as [Hg Hn]. fold st in Hg, Hn.
+  destruct (cstep st e) as [st1 outs] eqn:E. cbn [fst] in *.
+  destruct (cstep_facts _ _ _ _ _ 0 E Hg) as [_ [_ [_ Hch]]].
+  destruct (Hch Hne) as [r [He [Hneg [Hr Hv]]]].
+  exists r. refine (conj He (conj _ (conj Hr _))); [congruence|].
+  destruct Hv as [c [r0 [V1 [V2 V3]]]]. exists c, r0. refine (conj V1 (conj _ V3)).
+  rewrite app_nil_r in V2. now apply in_rev.
+Qed.
+
+(* NO RRC, NO CHANGE: without the negotiated extension nothing is ever sent to another address
+   and the remote address is constant, for every event sequence and every initial manager state. *)
+Lemma cstep_off st e :
+  negotiated st = false ->
+  raddr (fst (cstep st e)) = raddr st /\ negotiated (fst (cstep st e)) = false /\
+  snd (cstep st e) = [].
+Proof.
+  intro H. destruct e as [r|a now|now]; cbn [cstep fst snd with_mgr raddr negotiated];
+    [|repeat split; assumption|repeat split; assumption].
+  unfold step_record, handle_candidate, mark. rewrite H. cbn [andb negb].
+  unfold start. cbn [negb orb].
+  destruct (r_kind r); cbn [fst snd with_mgr raddr negotiated]; repeat split; assumption.
+Qed.
+
+Theorem no_rrc_no_change st evs :
+  negotiated st = false -> raddr (crun st evs) = raddr st /\ couts st evs = [].
+Proof.
+  revert st. induction evs as [|e evs IH]; intros st H; cbn [crun couts]; [split; reflexivity|].
+  destruct (cstep_off st e H) as [Hr [Hn Ho]].
+  destruct (IH _ Hn) as [IH1 IH2]. rewrite Ho, IH2. split; [congruence|reflexivity].
+Qed.
+
+(* AMPLIFICATION (connection level, exact byte counts, no saturation): for every address a and
+   every event sequence, the bytes of RRC records for which sending to a was authorised while a
+   was not the active address are at most three times the bytes of the admitted records that
+   arrived from a while a was not the active address. *)
+Lemma conn_amplification_gen evs : forall st hist a,
+  good hist st ->
+  sent_cand a (couts st evs) + cur_sent a (mgr st) <= 3 * (received_from a st evs + cur_recv a (mgr st)).
+Proof.
+  induction evs as [|e evs IH]; intros st hist a Hg; cbn [couts received_from sent_cand].
+  - destruct Hg as [Hi _]. pose proof (cur_le a (mgr st) Hi). lia.
+  - destruct (cstep st e) as [st1 outs] eqn:E. cbn [fst snd].
+    destruct (cstep_facts _ _ _ _ _ a E Hg) as [_ [Hg1 [HD _]]].
+    specialize (IH st1 (e :: hist) a Hg1). rewrite sent_cand_app. unfold D in HD. lia.
+Qed.
+
+Theorem conn_amplification st0 evs a :
+  mgr st0 = [] -> sent_cand a (couts st0 evs) <= 3 * received_from a st0 evs.
+Proof.
+  intro H0. pose proof (conn_amplification_gen evs st0 [] a (good_init [] st0 H0)) as H.
+  unfold cur_sent, cur_recv in H. rewrite H0 in H. cbn [pget] in H. lia.
+Qed.
+
+(* ---------------------------------------------------------------- connection IDs *)
+
+Lemma bytes_eqb_eq x : forall y, bytes_eqb x y = true <-> x = y.
+Proof.
+  induction x as [|a x IH]; intros [|b y]; cbn [bytes_eqb]; split; try discriminate; try reflexivity.
+  - intro H. apply andb_prop in H. destruct H as [H1 H2]. apply N.eqb_eq in H1. apply IH in H2. congruence.
+  - intro H. inversion H; subst. rewrite N.eqb_refl. cbn [andb]. now apply IH.
+Qed.
+
+(* by definition of the admission test: an admitted protected record carries exactly the local
+   connection ID (or none at all when the local ID is empty) *)
+Theorem accept_requires_own_cid local rc :
+  record_admitted local rc = true ->
+  match rc with Some c => c = local | None => local = [] end.
+Proof.
+  unfold record_admitted. destruct rc as [c|].
+  - intro H. apply bytes_eqb_eq in H. congruence.
+  - destruct local; [reflexivity|discriminate].
+Qed.
+
+Theorem sends_carry_peer_cid remote :
+  (remote <> [] -> wrap_cid remote = Some remote) /\ (remote = [] -> wrap_cid remote = None).
+Proof. split; intro H; destruct remote; try reflexivity; congruence. Qed.
